@@ -104,7 +104,7 @@ def mk(L):
         rec.clear_fail()
         prog.reset_globals()
         _B.cur[0] = None
-        perr = prog.E("provider")
+        perr = (prog.FE if k % 2 else prog.E)("provider")    # odd kinds: a falsy error object
         runs = [0]
 
         def prov_ok():
@@ -203,7 +203,7 @@ def mk(L):
                     if m.state is not None:
                         exp = ("e", "FIAC")
                     else:
-                        err = prog.E(("set", i))
+                        err = (prog.FE if i % 2 else prog.E)(("set", i))
                         m.complete(("e", err))
                         exp = ("v", None)
                 elif op == 6:
@@ -227,7 +227,7 @@ def mk(L):
                         elif op == 4:
                             r = fut.set_value(v)
                         elif op == 5:
-                            r = fut.set_error(m.state[1] if (exp == ("v", None) and m.state and m.state[0] == "e") else prog.E(("set", i)))
+                            r = fut.set_error(m.state[1] if (exp == ("v", None) and m.state and m.state[0] == "e") else (prog.FE if i % 2 else prog.E)(("set", i)))
                         elif op == 6:
                             r = fut.reset_unsafe()
                         else:
